@@ -191,7 +191,9 @@ impl<'s> G<'s> {
             }
             9 => {
                 let p = pers(self.sim);
-                let f = self.f_ord(o.order, cl::N_KEYED_COMM, cl::N_KEYED);
+                // reduce_keyed seeds the accumulator with the first value, so "count" (f = 2) is
+                // order-sensitive for it: only add / max on Bag inputs
+                let f = self.f_ord(o.order, cl::N_KEYED_COMM - 1, cl::N_KEYED);
                 self.unary(Op::ReduceKeyed { p, f }, o, Order::Bag, false)
             }
             10 => {
